@@ -232,6 +232,17 @@ theorem glob_to_cidrs_eq (s : List Char) (lo hi : Nat) (hc : globToIptuple s = .
     globToCidrs s = .ok (iprangeToCidrs 32 ⟨lo, 32⟩ ⟨hi, 32⟩) := by
   simp [globToCidrs, hc]
 
+/-- `glob_to_cidrs` of a valid glob: IPv4 blocks tiling exactly the glob's address set, ascending —
+    relative to the same C05 hypothesis as `range_to_globs_tiles_partial` -/
+theorem glob_to_cidrs_tiles_partial (s : List Char) (hv : validGlob s = true) :
+    ∃ lo hi, globToIptuple s = .ok (lo, hi) ∧ (∀ a, (lo ≤ a ∧ a ≤ hi) ↔ GlobMatches s a) ∧
+      (C05RangeOK lo hi → ∃ bs, globToCidrs s = .ok bs ∧ (∀ b ∈ bs, b.val < 2 ^ 32 ∧ b.plen ≤ 32) ∧
+        Tiles (bs.map (fun b => (b.first 32, b.last 32))) lo hi) := by
+  obtain ⟨lo, hi, h1, _, hle, hhi, hm⟩ := glob_denotes s hv
+  refine ⟨lo, hi, h1, hm, fun hc => ?_⟩
+  obtain ⟨hb, ht⟩ := cidrsTile_of_c05 lo hi hle hhi hc
+  exact ⟨_, glob_to_cidrs_eq s lo hi h1, hb, ht⟩
+
 /-- `IPGlob(s)` of a valid glob: an object over exactly the denoted range whose printed glob is
     valid and denotes that same range -/
 theorem ipglob_exact (s : List Char) (hv : validGlob s = true) :
